@@ -91,29 +91,57 @@ impl crate::input::Input {
 }
 pub open spec fn is_error_event(e: Event) -> bool { e is Error }
 pub open spec fn has_err_seq(ev: Seq<Event>) -> bool { exists|i: int| 0 <= i < ev.len() && is_error_event(#[trigger] ev[i]) }
+/// raw tokens accounted for by the Token events of the list (each Token event carries the number of raw tokens it glues)
+pub open spec fn tok_n(e: Event) -> int { match e { Event::Token { n_raw_tokens, .. } => n_raw_tokens as int, _ => 0 } }
+pub open spec fn ev_sum(ev: Seq<Event>) -> int
+    decreases ev.len()
+{ if ev.len() == 0 { 0 } else { ev_sum(ev.drop_last()) + tok_n(ev.last()) } }
+pub open spec fn is_token(e: Event) -> bool { e is Token }
+/// every Token event stands for at least one raw token
+pub open spec fn toks_ok(ev: Seq<Event>) -> bool { forall|i: int| 0 <= i < ev.len() && #[trigger] is_token(ev[i]) ==> tok_n(ev[i]) >= 1 }
+pub proof fn lemma_ev_sum_update(ev: Seq<Event>, i: int, e: Event)
+    requires 0 <= i < ev.len(), tok_n(ev[i]) == tok_n(e),
+    ensures ev_sum(ev.update(i, e)) == ev_sum(ev)
+    decreases ev.len()
+{
+    let s2 = ev.update(i, e);
+    if i == ev.len() - 1 { assert(s2.drop_last() =~= ev.drop_last()); }
+    else { assert(s2.drop_last() =~= ev.drop_last().update(i, e)); lemma_ev_sum_update(ev.drop_last(), i, e); }
+}
 pub proof fn lemma_has_err_push(ev: Seq<Event>, e: Event)
-    ensures has_err_seq(ev.push(e)) == (has_err_seq(ev) || e is Error)
+    ensures has_err_seq(ev.push(e)) == (has_err_seq(ev) || e is Error),
+        ev_sum(ev.push(e)) == ev_sum(ev) + tok_n(e), toks_ok(ev.push(e)) == (toks_ok(ev) && (e is Token ==> tok_n(e) >= 1)),
 {
     let s2 = ev.push(e);
     if has_err_seq(ev) { let i = choose|i: int| 0 <= i < ev.len() && is_error_event(#[trigger] ev[i]); assert(is_error_event(s2[i])); }
     if e is Error { assert(is_error_event(s2[ev.len() as int])); }
     if has_err_seq(s2) { let i = choose|i: int| 0 <= i < s2.len() && is_error_event(#[trigger] s2[i]); if i < ev.len() { assert(is_error_event(ev[i])); } }
+    assert(s2.drop_last() =~= ev);
+    if toks_ok(s2) { assert forall|i: int| 0 <= i < ev.len() && #[trigger] is_token(ev[i]) implies tok_n(ev[i]) >= 1 by { assert(is_token(s2[i])); } assert(is_token(s2[ev.len() as int]) == (e is Token)); }
 }
 pub proof fn lemma_has_err_update(ev: Seq<Event>, i: int, e: Event)
     requires 0 <= i < ev.len(), !(ev[i] is Error), !(e is Error),
-    ensures has_err_seq(ev.update(i, e)) == has_err_seq(ev)
+    ensures has_err_seq(ev.update(i, e)) == has_err_seq(ev),
+        (ev[i] is Start && e is Start) ==> ev_sum(ev.update(i, e)) == ev_sum(ev) && toks_ok(ev.update(i, e)) == toks_ok(ev),
 {
     let s2 = ev.update(i, e);
     if has_err_seq(ev) { let j = choose|j: int| 0 <= j < ev.len() && is_error_event(#[trigger] ev[j]); assert(is_error_event(s2[j])); }
     if has_err_seq(s2) { let j = choose|j: int| 0 <= j < s2.len() && is_error_event(#[trigger] s2[j]); assert(is_error_event(ev[j])); }
+    if ev[i] is Start && e is Start {
+        lemma_ev_sum_update(ev, i, e);
+        if toks_ok(ev) { assert forall|j: int| 0 <= j < s2.len() && #[trigger] is_token(s2[j]) implies tok_n(s2[j]) >= 1 by { assert(is_token(ev[j])); } }
+        if toks_ok(s2) { assert forall|j: int| 0 <= j < ev.len() && #[trigger] is_token(ev[j]) implies tok_n(ev[j]) >= 1 by { assert(is_token(s2[j])); } }
+    }
 }
 pub proof fn lemma_has_err_drop_last(ev: Seq<Event>)
     requires ev.len() > 0, !(ev.last() is Error),
-    ensures has_err_seq(ev.drop_last()) == has_err_seq(ev)
+    ensures has_err_seq(ev.drop_last()) == has_err_seq(ev),
+        ev.last() is Start ==> ev_sum(ev.drop_last()) == ev_sum(ev) && (toks_ok(ev) ==> toks_ok(ev.drop_last())),
 {
     let s2 = ev.drop_last();
     if has_err_seq(ev) { let j = choose|j: int| 0 <= j < ev.len() && is_error_event(#[trigger] ev[j]); assert(j < s2.len()); assert(is_error_event(s2[j])); }
     if has_err_seq(s2) { let j = choose|j: int| 0 <= j < s2.len() && is_error_event(#[trigger] s2[j]); assert(is_error_event(ev[j])); }
+    if toks_ok(ev) { assert forall|j: int| 0 <= j < s2.len() && #[trigger] is_token(s2[j]) implies tok_n(s2[j]) >= 1 by { assert(is_token(ev[j])); } }
 }
 impl<'t> Parser<'t> {
     pub open spec fn st(&self) -> PState {
@@ -121,7 +149,8 @@ impl<'t> Parser<'t> {
     }
     /// at least one error event has been recorded
     pub open spec fn has_err(&self) -> bool { has_err_seq(self.events@) }
-    pub open spec fn wf(&self) -> bool { wf(self.st()) && self.inp.wf() }
+    /// state well formed; forward_parent links valid; the Token events account for exactly the raw tokens consumed so far
+    pub open spec fn wf(&self) -> bool { wf(self.st()) && self.inp.wf() && fp_ok(self.events@) && toks_ok(self.events@) && ev_sum(self.events@) == self.pos }
 }
 // ---- event slots (marker discipline) -------------------------------------------------------------
 pub open spec fn is_start(e: Event) -> bool { e is Start }
@@ -132,9 +161,27 @@ pub open spec fn pending_at(ev: Seq<Event>, i: int) -> bool { 0 <= i < ev.len() 
 /// the slot of a completed node: a Start event that is not pending any more
 pub open spec fn done_at(ev: Seq<Event>, i: int) -> bool { 0 <= i < ev.len() && is_start(ev[i]) && !is_pending(ev[i]) }
 /// frame of the event list below `lo`: nothing is removed, a Start slot stays a Start slot and stays pending / completed as it was
+/// forward_parent links: the event carries `forward_parent: Some(d)`; `fp_of` is that distance (0 when there is none)
+pub open spec fn has_fp(e: Event) -> bool { e matches Event::Start { forward_parent: Some(_), .. } }
+pub open spec fn fp_of(e: Event) -> int { match e { Event::Start { forward_parent: Some(d), .. } => d as int, _ => 0 } }
+/// every forward_parent link points forward, inside the list, at a Start event: what `event::process` relies on
+/// when it follows the chain (`events[idx]` in bounds, and the `unreachable!()` of its inner match)
+pub open spec fn fp_ok(ev: Seq<Event>) -> bool {
+    forall|i: int| 0 <= i < ev.len() && #[trigger] has_fp(ev[i]) ==> fp_of(ev[i]) >= 1 && start_at(ev, i + fp_of(ev[i]))
+}
+/// no forward_parent link points at slot `j` (so removing slot `j` leaves no dangling link)
+pub open spec fn no_incoming(ev: Seq<Event>, j: int) -> bool {
+    forall|i: int| 0 <= i < ev.len() && #[trigger] has_fp(ev[i]) ==> i + fp_of(ev[i]) != j
+}
+/// a slot reserved by `Parser::start` that nothing points at: it may still be abandoned
+pub open spec fn fresh_at(ev: Seq<Event>, i: int) -> bool { pending_at(ev, i) && no_incoming(ev, i) }
+/// frame of the event list below `lo`: nothing is removed, a Start slot stays a Start slot and stays pending / completed as it was,
+/// and no new forward_parent link is aimed at a slot that was pending
 pub open spec fn evf(e0: Seq<Event>, e1: Seq<Event>, lo: int) -> bool {
     &&& 0 <= lo <= e0.len() && lo <= e1.len()
     &&& forall|i: int| #![trigger e0[i]] #![trigger e1[i]] 0 <= i < lo ==> (is_start(e0[i]) ==> is_start(e1[i]) && is_pending(e0[i]) == is_pending(e1[i]))
+    &&& forall|i: int| 0 <= i < e1.len() && #[trigger] has_fp(e1[i]) && 0 <= i + fp_of(e1[i]) < lo && is_pending(e0[i + fp_of(e1[i])])
+            ==> i < e0.len() && has_fp(e0[i]) && fp_of(e0[i]) == fp_of(e1[i])
 }
 pub broadcast proof fn lemma_evf_trans(e0: Seq<Event>, e1: Seq<Event>, e2: Seq<Event>, lo1: int, lo2: int)
     requires #[trigger] evf(e0, e1, lo1), #[trigger] evf(e1, e2, lo2),
